@@ -1311,7 +1311,46 @@ class Interp:
         if isinstance(found, list):
             f = VFunc(found[-1], owner.module, None, f"{owner.name}.__init__", owner)
             self.call(f.bind(obj), args, kwargs, node)
+        elif _is_dataclass(info):
+            # @dataclass without a hand-written __init__: the generated one assigns the annotated fields, in
+            # definition order (bases first), from positional / keyword arguments or the class-level default
+            names = _dataclass_fields(info)
+            args = list(args)
+            if len(args) > len(names):
+                self.raise_("TypeError", node=node)
+            for i, (nm, default) in enumerate(names):
+                if i < len(args):
+                    obj.fields[nm] = args[i]
+                elif nm in kwargs:
+                    obj.fields[nm] = kwargs[nm]
+                elif default is not None:
+                    obj.fields[nm] = self.eval(default, Env(None, {"__module__": info.module}))
+                else:
+                    self.raise_("TypeError", node=node)
+            extra = [k for k in kwargs if k not in [n for n, _ in names]]
+            if extra:
+                self.raise_("TypeError", node=node)
         return obj
+
+
+def _is_dataclass(info):
+    for d in info.node.decorator_list:
+        f = d.func if isinstance(d, ast.Call) else d
+        nm = f.id if isinstance(f, ast.Name) else (f.attr if isinstance(f, ast.Attribute) else None)
+        if nm == "dataclass":
+            return True
+    return False
+
+
+def _dataclass_fields(info):
+    out = []
+    for k in reversed([c for c in info.mro() if isinstance(c, ClassInfo)]):
+        if not _is_dataclass(k):
+            continue
+        for st in k.node.body:
+            if isinstance(st, ast.AnnAssign) and isinstance(st.target, ast.Name):
+                out = [x for x in out if x[0] != st.target.id] + [(st.target.id, st.value)]
+    return out
 
 
 class _OldEnv(Env):
